@@ -220,7 +220,7 @@ class DictWrapper:
 
     __slots__ = ("_dict",)
 
-    def __init__(self, dict_inst: dict | None = None, **values) -> None:
+    def __init__(self, dict_inst: dict | None = None, /, **values) -> None:
         if dict_inst is not None:
             # A dictionary was passed: store a reference to that instance
             if not isinstance(dict_inst, dict):
